@@ -20,7 +20,7 @@ Messages: the library's own codes from the tree's header (via tools/gen.py), lib
 """
 import os as _os, re
 from proto import Op, Region, ptr
-from gens import (X, LIM, cstr, bosarg, EOK, ESNULLP, ESZEROL, ESLEMIN, ESLEMAX, ESNOSPC, EOVERFLOW)
+from gens import (X, LIM, cstr, bosarg, EOK, ESNULLP, ESZEROL, ESLEMIN, ESLEMAX, ESNOSPC, EOVERFLOW, ESUNTERM)
 from oracles import Fail, usable_dest, dest_cells
 
 LIMS = LIM[1]
@@ -182,6 +182,51 @@ def gen_time(rng, tier, ops):
         ops.append(mk_time("ctime_s", dmax, timer=rng.choice([rng.randint(0, 1 << 31), rng.randint(0, 313360441199)]),
                            prior=[rng.choice([0x51, 0, 0x41]) for _ in range(dmax)], tag="random"))
 
+
+def mk_gets(inp, dmax, prior=None, dnull=False, bos=None, objsize=None, tag=""):
+    """inp: the bytes stdin still holds (list of ints)"""
+    objsize = objsize if objsize is not None else max(dmax, 1)
+    dcells = (list(prior or []) + [X] * objsize)[:objsize]
+    regs = [Region(1, dcells), Region(1, list(inp) + [0])]     # the trailing 0 is not part of the stream (length passed separately)
+    d = "null" if dnull else ptr(0)
+    W = [] if dnull else [(0, 0, min(dmax, objsize))]
+    Rd = list(W) + [(1, 0, len(inp))]
+    meta = dict(fam="os", fn="gets_s", w=1, dest=None if dnull else (0, 0), dmax=dmax, bos=bos, objsize=objsize, src=(1, 0),
+                inp=list(inp), prior=dcells, truthful=(dnull or dmax <= objsize) and (bos is None or bos <= objsize), tag=tag)
+    return Op("gets_s", regs, [d, dmax, bosarg(bos), ptr(1), len(inp)], W, Rd, meta)
+
+
+def gen_gets(rng, tier, ops):
+    NL = 10
+    line = lambda n: [0x61 + i % 26 for i in range(n)]
+    for dmax in (1, 2, 3, 5, 8, 33, 64):
+        for n in sorted(set([0, 1, max(dmax - 2, 0), dmax - 1, dmax, dmax + 1, dmax + 7])):
+            for tail in ([NL], [], [NL, 0x7A, 0x7A, NL]):
+                for prior in (None, [0x51] * (dmax + 8)):
+                    ops.append(mk_gets(line(n) + tail, dmax, prior=prior, objsize=dmax, tag="flush"))       # dest[dmax] unmapped
+                    ops.append(mk_gets(line(n) + tail, dmax, prior=prior, objsize=dmax + 8, tag="roomy"))   # dest[dmax] mapped, not declared
+    ops.append(mk_gets([], 8, tag="eof"))
+    ops.append(mk_gets([], 8, prior=[0x51] * 8, tag="eof-dirty"))
+    ops.append(mk_gets([NL], 8, prior=[0x51] * 8, tag="empty-line"))
+    ops.append(mk_gets(line(3) + [NL], 8, dnull=True, tag="dnull"))
+    ops.append(mk_gets(line(3) + [NL], 0, tag="dmax0"))
+    ops.append(mk_gets(line(3) + [NL], LIMS + 1, objsize=8, tag="limit+1"))
+    ops.append(mk_gets(line(3) + [NL], LIMS, objsize=LIMS, tag="limit"))
+    ops.append(mk_gets(line(3) + [NL], LIMS + 1, bos=LIMS + 100, objsize=LIMS + 100, prior=[0x51] * (LIMS + 100), tag="limit+1-within-bos"))
+    for dmax, bos, obj in ((8, 8, 8), (8, 16, 16), (9, 8, 9), (LIMS + 1, 8, 8)):
+        ops.append(mk_gets(line(3) + [NL], dmax, bos=bos, objsize=obj, tag="bos"))
+        ops.append(mk_gets(line(20), dmax, bos=bos, objsize=obj, tag="bos-long"))
+    # a NUL byte inside the line: fgets copies it, strnlen stops at it (no reference value: implementation-defined)
+    ops.append(mk_gets([0x61, 0, 0x62, NL], 8, prior=[0x51] * 8, tag="embedded-nul"))
+    ops.append(mk_gets([0x61, 0x62, 0x63, 0x64, 0, 0x62, NL], 6, prior=[0x51] * 14, objsize=14, tag="embedded-nul"))
+    n = 150 if tier == "quick" else 4000
+    for _ in range(n):
+        dmax = rng.choice([1, 2, 4, 7, 16, 40])
+        L = rng.choice([rng.randint(0, dmax + 3), rng.randint(0, 3 * dmax)])
+        tail = rng.choice([[NL], [], [NL] + line(rng.randint(0, 5))])
+        ops.append(mk_gets(line(L) + tail, dmax, prior=[rng.choice([0x51, 0, 0x41]) for _ in range(dmax + 8)],
+                           objsize=rng.choice([dmax, dmax + 8]), tag="random"))
+
 ERRNUMS = list(range(400, 411)) + [0, 1, 2, 9, 12, 22, 34, 75, 84, 133, 134, 399, 411, 4095, -1, -400, 1 << 20]
 
 
@@ -224,6 +269,7 @@ def gen(rng, tier):
         ops.append(mk_strerror(e, LIMS, objsize=LIMS, tag="limit"))
         ops.append(mk_strerror(e, LIMS + 1, prior=[0x51] * (LIMS + 100), bos=LIMS + 100, objsize=LIMS + 100, tag="limit+1-within-bos"))
     gen_time(rng, tier, ops)
+    gen_gets(rng, tier, ops)
     n = 200 if tier == "quick" else 4000
     for _ in range(n):
         if rng.random() < 0.5:
@@ -250,6 +296,39 @@ def annotate(op):
                  violname="", ref=dict(count=len(m["msg"])))
         return
     m.update(hkind="S", retkind="e", producing=True, clears=False, slackdoc=(fn == "getenv_s"), limit=LIMS)
+    if fn == "gets_s":
+        # doc comment: ESNULLP dest null, ESZEROL dmax = 0, ESLEMAX dmax > RSIZE_MAX_STR, EOVERFLOW dmax > size of dest,
+        # ESNOSPC "endline or eof not encountered after storing dmax-1 characters"; "always writes the terminating null
+        # character"; with SAFECLIB_STR_NULL_SLACK "the rest of dmax is cleared"; NULL with errno 0 at end of file
+        m.update(slackdoc=True, clears=True, benign=(-1,), not_success=(-1,))
+        inp = m["inp"]
+        if m["dest"] is None:
+            viol.add(ESNULLP); names.append("dest-null")
+        if dmax == 0:
+            viol.add(ESZEROL); names.append("dmax-zero")
+        if dmax > LIMS:
+            if bos is not None and dmax <= bos:
+                opt.add(ESLEMAX); names.append("dmax-max-within-bos")
+            else:
+                viol.add(ESLEMAX); names.append("dmax-max")
+        if bos is not None and dmax > bos:
+            viol.add(EOVERFLOW); names.append("dmax-bos")
+        if 0 in inp:
+            m.update(viol=viol, viol_opt=opt, violname="+".join(names + ["embedded-nul"]), ref=ref)
+            del m["viol"]          # no reference: implementation-defined
+            return
+        if not viol:
+            line = inp[:inp.index(10)] if 10 in inp else inp
+            if len(line) > dmax - 1:
+                viol.add(ESNOSPC); names.append("line-too-long")
+            elif not inp:
+                ref["ret"] = -1; ref["eof"] = True
+            elif m["truthful"]:
+                ref["cells"] = list(line) + [0]
+        if viol:
+            viol |= opt
+        m.update(viol=viol, viol_opt=opt, violname="+".join(names), ref=ref)
+        return
     if fn in ("asctime_s", "ctime_s"):
         # @retval: ESNULLP dest/tm(timer) null; ESLEMIN dmax < 26 or a member / the time below its range; ESLEMAX dmax > RSIZE_MAX_STR or
         # above the range; EOVERFLOW dmax > size of dest; ESNOSPC dmax too small for the result; the result is libc's 26-byte text
